@@ -225,10 +225,46 @@ Definition parse_exponent (s : bstring) : option (Z * bstring) :=
   let '(v, n, rest) := parse_base 10 0 0 s1 in
   if n =? 0 then None else Some (if neg then - v else v, rest).
 
+(* "nan" may be followed by "(n-char-sequence)" *)
+Definition nan_tail (r : bstring) : bstring :=
+  match r with
+  | c :: t =>
+      if c =? 40 then
+        match skip_nchars t with
+        | d :: u => if d =? 41 then u else r
+        | [] => r
+        end
+      else r
+  | [] => r
+  end.
+
+(* "0x" followed by a hex digit or a point *)
+Definition is_hex_start (s1 : bstring) : bool :=
+  match s1 with
+  | c0 :: x :: h :: _ => (c0 =? 48) && is_x x && ((digit_val h <? 16) || (h =? 46))
+  | _ => false
+  end.
+
+(* optional fraction: (mantissa, fraction digits, rest) *)
+Definition frac_part (b ip : Z) (r1 : bstring) : Z * Z * bstring :=
+  match r1 with
+  | c :: t => if c =? 46 then parse_base b ip 0 t else (ip, 0, r1)
+  | [] => (ip, 0, r1)
+  end.
+
+(* optional exponent introduced by mk1/mk2: (exponent, rest) *)
+Definition exp_part (mk1 mk2 : byte) (r2 : bstring) : Z * bstring :=
+  match r2 with
+  | c :: t =>
+      if (c =? mk1) || (c =? mk2) then
+        match parse_exponent t with Some (e, r) => (e, r) | None => (0, r2) end
+      else (0, r2)
+  | [] => (0, r2)
+  end.
+
 (* result: (bits, rest, erange); no conversion => (0, s0, false) *)
 Definition strtod_model (s0 : bstring) : Z * bstring * bool :=
-  let s := skip_ws s0 in
-  let '(neg, s1) := split_sign s in
+  let '(neg, s1) := split_sign (skip_ws s0) in
   let none := (0, s0, false) in
   match prefix_ci [105; 110; 102] s1 with
   | Some r =>
@@ -236,53 +272,26 @@ Definition strtod_model (s0 : bstring) : Z * bstring * bool :=
       (with_sign neg (2047 * two52), r', false)
   | None =>
   match prefix_ci [110; 97; 110] s1 with
-  | Some r =>
-      let r' := match r with
-                | 40 :: t => match skip_nchars t with 41 :: u => u | _ => r end
-                | _ => r
-                end in
-      (with_sign neg (2047 * two52 + two52 / 2), r', false)
+  | Some r => (with_sign neg (2047 * two52 + two52 / 2), nan_tail r, false)
   | None =>
-    let hex := match s1 with
-               | 48 :: x :: h :: _ => is_x x && ((digit_val h <? 16) || (h =? 46))
-               | _ => false
-               end in
-    if hex then
+    if is_hex_start s1 then
       let body := tl (tl s1) in
       let '(ip, ni, r1) := parse_base 16 0 0 body in
-      let '(m, nf, r2) := match r1 with
-                          | 46 :: t => parse_base 16 ip 0 t
-                          | _ => (ip, 0, r1)
-                          end in
-      let r2 := match r1 with 46 :: t => r2 | _ => r1 end in
+      let '(m, nf, r2) := frac_part 16 ip r1 in
       if ni + nf =? 0 then
         (* "0x" not followed by a hex digit: only the "0" is converted *)
         (with_sign neg 0, tl s1, false)
       else
-        let '(ex, r3) := match r2 with
-                         | c :: t => if (c =? 112) || (c =? 80) then
-                                       match parse_exponent t with Some (e, r) => (e, r) | None => (0, r2) end
-                                     else (0, r2)
-                         | [] => (0, r2)
-                         end in
+        let '(ex, r3) := exp_part 112 80 r2 in
         let e2 := exp_clamp ex - 4 * nf in
         let '(b, er) := if 0 <=? e2 then bits_of_ratio (m * 2 ^ e2) 1 else bits_of_ratio m (2 ^ (- e2)) in
         (with_sign neg b, r3, er)
     else
       let '(ip, ni, r1) := parse_base 10 0 0 s1 in
-      let '(m, nf, r2) := match r1 with
-                          | 46 :: t => parse_base 10 ip 0 t
-                          | _ => (ip, 0, r1)
-                          end in
-      let r2 := match r1 with 46 :: t => r2 | _ => r1 end in
+      let '(m, nf, r2) := frac_part 10 ip r1 in
       if ni + nf =? 0 then none
       else
-        let '(ex, r3) := match r2 with
-                         | c :: t => if (c =? 101) || (c =? 69) then
-                                       match parse_exponent t with Some (e, r) => (e, r) | None => (0, r2) end
-                                     else (0, r2)
-                         | [] => (0, r2)
-                         end in
+        let '(ex, r3) := exp_part 101 69 r2 in
         let e10 := exp_clamp ex - nf in
         let '(b, er) := if 0 <=? e10 then bits_of_ratio (m * 10 ^ e10) 1 else bits_of_ratio m (10 ^ (- e10)) in
         (with_sign neg b, r3, er)
